@@ -16,11 +16,11 @@ import (
 type origin uint8
 
 const (
-	oFresh   origin = 1 << iota // allocated (or copied) by the function itself
-	oImm                        // immutable data: nil, constants, string contents
-	oParam                      // the caller's storage (derived from a parameter)
-	oField                      // internal storage of an object (loaded from a struct field)
-	oGlobal                     // package-level storage
+	oFresh  origin = 1 << iota // allocated (or copied) by the function itself
+	oImm                       // immutable data: nil, constants, string contents
+	oParam                     // the caller's storage (derived from a parameter)
+	oField                     // internal storage of an object (loaded from a struct field)
+	oGlobal                    // package-level storage
 	oUnknown
 )
 
